@@ -57,7 +57,8 @@ func (w *World) applyByz(a simrt.Action) bool {
 			}
 			id = blocks[int(a.C-1)%len(blocks)].ID
 		}
-		w.pool.AddVote(w.signVote(v, idx, h, r, t, id), v.id, true, "")
+		it := w.pool.AddVote(w.signVote(v, idx, h, r, t, id), v.id, true, "")
+		w.tagSide(a, it, nil)
 		w.Faults.Inc("byz_vote")
 		return true
 	case "propose":
@@ -86,7 +87,8 @@ func (w *World) applyByz(a simrt.Action) bool {
 			parts = blk.MakePartSet(w.Cfg.BlockPartSize)
 			prop := types.NewProposal(h, r, parts.Header(), -1, types.BlockID{})
 			prop.Signature = v.key.Sign(types.SignBytes(ChainID, prop))
-			w.pool.AddProposal(prop, v.id, true, "")
+			it := w.pool.AddProposal(prop, v.id, true, "")
+			w.tagSide(a, it, parts.Header().Hash)
 			w.pool.AddPartSet(h, parts, v.id, true)
 			made = true
 			break
@@ -105,4 +107,24 @@ func (w *World) applyInject(a simrt.Action) bool {
 		return false
 	}
 	return w.Injector(w, a)
+}
+
+// tagSide records for which side of a split attack a Byzantine artefact was made (action field I = "s0"/"s1").
+func (w *World) tagSide(a simrt.Action, it *Item, setHash []byte) {
+	if len(a.I) != 2 || a.I[0] != 's' {
+		return
+	}
+	if w.sideOf == nil {
+		w.sideOf = map[string]int{}
+	}
+	s := int(a.I[1] - '0')
+	if it != nil {
+		if _, ok := w.sideOf[it.ID]; !ok {
+			w.sideOf[it.ID] = s
+		}
+	}
+	if setHash != nil {
+		w.sideOf[string(setHash)] = s
+	}
+	w.Faults.Inc("split_attack_equivocation")
 }
